@@ -8,7 +8,7 @@
 From Coq Require Import List ZArith Bool.
 From V Require Import Lib.Enc Model.DList Model.SList Run.C13 Proofs.DListRel Proofs.DListRun Proofs.SListInv Proofs.SListRun Proofs.C13Entry.
 From V Require Import Lib.GoSem Lib.GoSemHeap Gen.SListCode Proofs.SListCode.
-From V Require Gen.DListCode Proofs.DListCode.
+From V Require Gen.DListCode Proofs.DListCode Proofs.DListCopyCode.
 Import ListNotations.
 
 (* ---------------------------------------------------------------- DList *)
@@ -113,10 +113,19 @@ Print Assumptions c13_slist_code_is_model.
    Len, Init, lazyInit, Front, Back, DNode.Next / Prev, insert, insertValue, remove, move = the model's llen, init,
    lazy_init, front, back, node_next / node_prev, insert, insert_value, remove, move; Remove, PushFront, PushBack,
    InsertBefore / After, PushFrontNode / PushBackNode, InsertNodeBefore / After, MoveToFront / ToBack / Before / After = their
-   guards (owned) + lazy_init + the core, as in Model.DList.step.  NOT covered: PushBackDList /
-   PushFrontDList, NewDoubly, iter.go.  (The statement lives in Proofs/ because Gen/DListCode.v and Gen/SListCode.v both
+   guards (owned) + lazy_init + the core, as in Model.DList.step.  NOT covered here: PushBackDList /
+   PushFrontDList (next theorem), NewDoubly, iter.go (closures: outside the translator's fragment).  (The statement lives in Proofs/ because Gen/DListCode.v and Gen/SListCode.v both
    define Heap / mkHeap / h_fresh and this file imports the SList names.) *)
 Theorem c13_dlist_code_is_model : V.Proofs.DListCode.dlist_code_is_model_stmt.
 Proof. exact V.Proofs.DListCode.dlist_code_is_model. Qed.
 Print V.Proofs.DListCode.dlist_code_is_model_stmt.
 Print Assumptions c13_dlist_code_is_model.
+
+(* the counted copy loops: PushBackDList / PushFrontDList as generated (loop on explicit fuel, the count other.Len() read once
+   after lazyInit and before the first insertion, e.Value / l.root.prev re-read in every iteration, e advanced by Next / Prev)
+   equal the model's copy_back / copy_front from (lazy_init h L), for all heaps and list ids L, L' — L' = L included: the
+   self-copy runs exactly the captured number of iterations.  Fuel premise: more fuel than copies. *)
+Theorem c13_dlist_copy_code_is_model : V.Proofs.DListCopyCode.dlist_copy_code_is_model_stmt.
+Proof. exact V.Proofs.DListCopyCode.dlist_copy_code_is_model. Qed.
+Print V.Proofs.DListCopyCode.dlist_copy_code_is_model_stmt.
+Print Assumptions c13_dlist_copy_code_is_model.
